@@ -16,16 +16,20 @@ void rp_reg_harness(const char* name, void (*fn)(void));
 #define INPUT_ARR(T, name, N) T name[(N) > 0 ? (N) : 1]; __attribute__((constructor)) static void rpreg_##name(void) { rp_reg_input(#name, name, sizeof(T), (N)); }
 #define HAVOC(x) ((void)0)
 #define HAVOC_ARR(a, n) ((void)0)
+#define HAVOC_OBJ(a) ((void)0)
 #define HARNESS(name) void name(void); __attribute__((constructor)) static void rpregh_##name(void) { rp_reg_harness(#name, name); } void name(void)
 #define P(c, msg) do { if (!(c)) { printf("REPRODUCED: %s\n", msg); fflush(stdout); exit(1); } } while (0)
 #define ASSUME(c) do { if (!(c)) { printf("replay: input violates harness assumption %s\n", #c); fflush(stdout); exit(0); } } while (0)
 #define WIT(c) ((void)0)
 #define PATH_END() exit(0)
+extern unsigned long long irc_alloc_max;   /* defined by the replay build of the shim (operator new meter) */
 #else
 #define INPUT(T, name) T name;
 #define INPUT_ARR(T, name, N) T name[(N) > 0 ? (N) : 1];
 #define HAVOC(x) do { __typeof__(x) nd_tmp_; (x) = nd_tmp_; } while (0)
 #define HAVOC_ARR(a, n) do { for (unsigned hv_i_ = 0; hv_i_ < (unsigned)(n); hv_i_++) { __typeof__((a)[0]) nd_tmp_; (a)[hv_i_] = nd_tmp_; } } while (0)
+/* loop-free havoc of a whole input array (keeps the global --unwind small when the harness also contains bounded recursion) */
+#define HAVOC_OBJ(a) __CPROVER_havoc_object(a)
 #define HARNESS(name) void name(void)
 #define ASSUME(c) __CPROVER_assume(c)
 #define PATH_END() __CPROVER_assume(0)
